@@ -509,6 +509,7 @@ class SATEncoder:
 
         # Convert hints to SAT assumptions
         assumptions: list[int] = list(kwargs.pop("assumptions", []) or [])
+        n_given = len(assumptions)
         if hints:
             for name, val in hints.items():
                 if name in self.model._vars:
@@ -522,6 +523,15 @@ class SATEncoder:
             solution_limit=solution_limit,
             **kwargs,
         )
+
+        if sat_result.status == SATStatus.INFEASIBLE and len(assumptions) > n_given:
+            # Hints only guide the search: retry without them before giving up
+            sat_result = solve_sat(
+                self._clauses,
+                assumptions=assumptions[:n_given] or None,
+                solution_limit=solution_limit,
+                **kwargs,
+            )
 
         if sat_result.status == SATStatus.INFEASIBLE:
             return Result(None, 0, sat_result.iterations, sat_result.evaluations, Status.INFEASIBLE)
